@@ -350,6 +350,10 @@ def applyCall (o : Op) (call : String) : Option Op :=
   | ["pcornerL", c, _listId, l] => do
       -- the same label list object handed to several calls: the operation must behave as for separate lists
       o.projectCorner? (← c.toInt?) l
+  | ["reassemble", _how] =>
+      -- `Mesh.backport()` / `Mesh.clear(); Mesh.assemble()`: every list is emptied and filled again from the operation;
+      -- what the mesh shows is `Op.view`, a function of the operation alone
+      some o
   | ["base", "loft"] => some o
   | ["base", "box"] => some o
   | ["base", "extrude"] => some o
